@@ -37,6 +37,14 @@ type FuncVal struct {
 	Fn       *ssa.Function
 	Bindings []Val // free variable bindings of a closure
 	Bound    *Val  // receiver of a bound-method closure
+	Alts     []FuncAlt // a function value that is one of several statically known closures
+	Roles    []string  // per binding: the struct field the bound value was loaded from (role contracts)
+}
+
+// FuncAlt is one alternative of a merged function value, selected when Cond holds.
+type FuncAlt struct {
+	Cond *Term
+	F    *FuncVal
 }
 
 type AddrKind int
@@ -75,6 +83,7 @@ type State struct {
 	heap      map[string]*Term
 	defers    []deferred
 	untouched []string // heap maps havocked before their first access in this state
+	preserved []string // heap maps exempt from a whole-heap havoc (epoch) because a contract preserves them
 	epoch     string   // non-empty after a havoc of the whole heap: first accesses see fresh maps
 }
 
@@ -93,6 +102,7 @@ func (s *State) clone() *State {
 	}
 	n.defers = append([]deferred{}, s.defers...)
 	n.untouched = append([]string{}, s.untouched...)
+	n.preserved = append([]string{}, s.preserved...)
 	n.epoch = s.epoch
 	return n
 }
@@ -131,11 +141,33 @@ func (vc *VC) mergeVal(conds []*Term, vs []Val, what string) Val {
 			t = p.Ite(conds[i], vs[i].T, t)
 		}
 		r := scalar(t)
-		// keep static function info only if identical
+		// keep static function info: identical, or a case split over the alternatives
 		r.Fn = v0.Fn
+		same := true
+		allKnown := v0.Fn != nil
 		for _, v := range vs[1:] {
 			if v.Fn != v0.Fn {
-				r.Fn = nil
+				same = false
+			}
+			if v.Fn == nil {
+				allKnown = false
+			}
+		}
+		if !same {
+			r.Fn = nil
+			if allKnown {
+				fv := &FuncVal{}
+				for i, v := range vs {
+					c := conds[i]
+					if len(v.Fn.Alts) > 0 {
+						for _, a := range v.Fn.Alts {
+							fv.Alts = append(fv.Alts, FuncAlt{p.And(c, a.Cond), a.F})
+						}
+					} else {
+						fv.Alts = append(fv.Alts, FuncAlt{c, v.Fn})
+					}
+				}
+				r.Fn = fv
 			}
 		}
 		return r
@@ -297,7 +329,20 @@ func (vc *VC) mergeStates(sts []*State, what string) *State {
 		}
 		out.heap[k] = t
 	}
-	for _, s := range sts {
+	for i, s := range sts {
+		if i == 0 {
+			out.preserved = append([]string{}, s.preserved...)
+		} else {
+			var keep []string
+			for _, k := range out.preserved {
+				for _, k2 := range s.preserved {
+					if k == k2 {
+						keep = append(keep, k)
+					}
+				}
+			}
+			out.preserved = keep
+		}
 		for _, u := range s.untouched {
 			out.untouched = appendUnique(out.untouched, u)
 		}
@@ -337,6 +382,11 @@ func (vc *VC) heapGet(st *State, key string, s Sort) *Term {
 func (vc *VC) heapDefault(st *State, key string, s Sort) *Term {
 	vc.heapInit(key, &s) // registers sort and entry variable
 	hav := st.epoch != ""
+	for _, u := range st.preserved {
+		if u == key {
+			hav = false
+		}
+	}
 	for _, u := range st.untouched {
 		if u == key {
 			hav = true
